@@ -55,7 +55,7 @@ def c02(tier):
     rnd = random.Random(202 + run.seed)
     big = []
     for k in kinds:
-        for n in ((8, 16, 33) if tier == "quick" else (8, 13, 16, 33, 64, 100)):
+        for n in ((6, 7, 8, 16, 33) if tier == "quick" else (5, 6, 7, 8, 13, 16, 33, 64, 100)):
             big.append({"cfg": {"k": k, "n": n}, "unit": 1, "mode": "window", "eps": [1, 1000000000], "float": "f64",
                         "xs": shapes(rnd, n, -40, 40, 300 if tier == "quick" else 3000), "k": 1})
     run.submit(p3_stream_job, "w-big", "C02", big)
@@ -127,6 +127,9 @@ def c13(tier):
         xs[n // 3:n // 3 + 200] = sorted(xs[n // 3:n // 3 + 200])                 # monotone run
         xs[n // 2:n // 2 + 50] = [max(xs)] * 50                                  # repeated peak
         streams.append({"cfg": cfg, "unit": 100, "mode": "rolling", "eps": [1, 1000000000], "float": "f64", "xs": xs, "k": 10 if tier == "quick" else 250})
+    # a large mean with small variation: any formula that subtracts large sums loses the variance here
+    xs2 = [100000000 + v for v in walk(rnd, n // 2, -2000, 2000, 300)]
+    streams.append({"cfg": {"k": "WelfordRolling"}, "unit": 100, "mode": "rolling", "eps": [1, 1], "epsp": 12, "float": "f64", "xs": xs2, "k": 10 if tier == "quick" else 250})
     run.submit(p3_stream_job, "roll-long", "C13", streams)
     return run.finish(RULE_DEF + "; plus recorded long streams validated against exact running sums (P3)")
 
@@ -170,6 +173,10 @@ def c11(tier):
                         "xs": walk(rnd, 400 if tier == "quick" else 2000, 100, 1000, 60), "k": 1 if tier == "quick" else 4})
     big.append({"cfg": {"k": "LaguerreFilter", "g": [4, 5]}, "unit": 10, "mode": "machine", "eps": [1, 100000000], "float": "f64",
                 "xs": walk(rnd, 150, 100, 1000, 60), "k": 1})
+    for n in ((10, 16) if tier == "quick" else (10, 16, 20, 33)):
+        for cfg in [{"k": "EhlersFisherTransform", "n": n, "c": [E, ema(4)]}, {"k": "PolarizedFractalEfficiency", "n": n, "c": [E, ema(5)]}]:
+            big.append({"cfg": cfg, "unit": 10, "mode": "full", "eps": [1, 100000000], "float": "f64",
+                        "xs": walk(rnd, 3 * n + 20, 100, 1000, 60), "k": 1})
     run.submit(p3_stream_job, "ehlers-big", "C11", big)
     run.submit(p1_job, "laguerre", "MC_Def", {"prop": "C11", "cfgs": lag, "alphabet": [-2, 0, 1, 3], "unit": 1, "maxlen": 6 if tier == "quick" else 8})
     return run.finish(RULE_DEF)
@@ -216,7 +223,7 @@ def c04(tier):
             rel_job(run, "avg-affine-n%d-a%d_%d" % (n, a[0], a[1]), "C04", sc2["cfgs"], alpha, 1, min(L, 6), a, b, "affine")
     return run.finish(RULE_DEF + "; for the interval/constant/monotone clauses: states in which the average reports a value")
 
-def rel_job(run, name, prop, cf, alphabet, unit, L, a, b, mode, bitexact=False, cfgs2=None):
+def rel_job(run, name, prop, cf, alphabet, unit, L, a, b, mode, bitexact=False, cfgs2=None, invonly=False, pow2=0):
     """two real runs per history: x and a*x+b (a = [num,den], b = [num,den]); decided by MC_Rel"""
     an, ad = a; bn, bd = b
     unit2 = ad * bd * unit
@@ -226,7 +233,12 @@ def rel_job(run, name, prop, cf, alphabet, unit, L, a, b, mode, bitexact=False, 
         sc["bitexact"] = True
     if cfgs2:
         sc["cfgs2"] = cfgs2
+    if invonly:
+        sc["invonly"] = True
+        sc["a"] = [1, 1]; sc["a_real"] = "%d/%d (only invariance is asserted; the factor itself is not read by the specification)" % (an, ad)
     sc2 = {"cfgs": cfgs2 or cf, "alphabet": alpha2, "unit": unit2, "maxlen": L}
+    if pow2:
+        sc2["pow2"] = pow2          # second run in units of 2^pow2 (exact); only invariance is asserted
     run.submit(p1_job, name, "MC_Rel", sc, scope2=sc2,
                nontrivial_keys=("rel.inv", "rel.scale", "rel.affine", "rel.neg", "rel.rsi"))
 
@@ -250,6 +262,11 @@ def c12(tier):
         cf = c12_cfgs(n)
         rel_job(run, "scale2-n%d" % n, "C12", cf, A, 1, L, [2, 1], [0, 1], "scale", bitexact=True)
         rel_job(run, "scale3h-n%d" % n, "C12", cf, A, 1, L, [3, 2], [0, 1], "scale")
+        if n <= 3:
+            # units far from 1: an absolute threshold anywhere in a view is not scale invariant (bit-exact: powers of two)
+            rel_job(run, "scale-tiny-n%d" % n, "C12", cf, A, 1, L, [1, 1], [0, 1], "scale", bitexact=True, invonly=True, pow2=-120)
+            rel_job(run, "scale-huge-n%d" % n, "C12", cf, A, 1, L, [1, 1], [0, 1], "scale", bitexact=True, invonly=True, pow2=100)
+            rel_job(run, "offset-big-n%d" % n, "C12", cf, A, 1, L, [1, 1], [1000000, 1], "affine")
         rel_job(run, "affine-n%d" % n, "C12", cf, A, 1, L, [3, 1], [5, 2], "affine")
         rel_job(run, "neg-n%d" % n, "C12", cf, A, 1, L, [-1, 1], [0, 1], "neg", cfgs2=swap_minmax(cf))
     # positive-domain views
@@ -427,6 +444,16 @@ def c15(tier):
             ch = [with_child(o, inner) for n in (1, 3) for o in catalogue(n) if o["k"] not in ("Echo", "Constant")]
             run.submit(p1_job, "np-chain%d-%s" % (i, prof), "MC_Obs", {"prop": "C15", "cfgs": ch, "alphabet": [-1, 0, 1], "unit": 1, "maxlen": 5},
                    profile=prof, nontrivial_keys=nk, view_label=label)
+    # larger windows on varied (non-constant) recorded streams, debug and release
+    rnd = random.Random(1515 + run.seed)
+    for prof in ("dev", "release"):
+        st = []
+        for n in ([5, 8, 13, 16, 31, 32, 33, 63, 64] if tier == "quick" else list(range(5, 65))):
+            xs = shapes(rnd, n, -30, 30, 2 * n + 12)
+            for cfg in catalogue(n, m=(n % 3) + 1):
+                if "n" in cfg or cfg["k"] in ("Add", "Subtract", "Multiply"):
+                    st.append({"cfg": cfg, "unit": 2, "mode": "nopanic", "eps": [1, 1], "float": "f64", "xs": xs, "k": 1})
+        run.submit(p3_stream_job, "np-shapes-%s" % prof, "C15", st, profile=prof)
     # model level: the implementation-shaped machines never "panic" (usize underflow, empty unwrap) for any window 1..64
     for a in ([0], [1], [-1, 2]):
         ns = [1, 2, 3, 4, 5, 8, 16, 33, 64] if tier == "quick" else list(range(1, 65))
@@ -493,6 +520,19 @@ def c01(tier):
             for y in kids:
                 cf += [{"k": b, "c": [tapped(x, 1, 0), tapped(y, 3, 2)]}, {"k": "Decomp", "outer": E, "inner": E}]
         run.submit(p1_job, "bin-%s" % b, "MC_C01", {"cfgs": cf, "alphabet": [1, 2, 4], "unit": 1, "maxlen": L, "taps": True},
+                   cfgfile="MC_C01.cfg", cfg_fraction=2, nontrivial_keys=("forward-once",), view_label=c01_label)
+        # zeros and sign changes for the children whose domain admits them
+        # children that answer from the first value on, next to children that warm up or withhold values
+        n2 = lambda k: {"k": k, "n": 2}
+        kz = [n2("Cumulative"), n2("Min"), n2("HLNormalizer"), n2("Roc"), n2("CenterOfGravity"), {"k": "Tanh"}, {"k": "GTE", "v": [0, 1]},
+              n2("Sma"), n2("Ema"), n2("Rsi"), n2("MyRSI"), n2("SuperSmoother"), n2("WelfordOnline"), n2("LaguerreRSI")]
+        if tier == "quick":
+            kz = kz[::2] + [n2("Sma")]
+        cfz = []
+        for x in kz:
+            for y in kz:
+                cfz += [{"k": b, "c": [tapped(x, 1, 0), tapped(y, 3, 2)]}, {"k": "Decomp", "outer": E, "inner": E}]
+        run.submit(p1_job, "bin-zero-%s" % b, "MC_C01", {"cfgs": cfz, "alphabet": [-2, 0, 3], "unit": 2, "maxlen": L, "taps": True},
                    cfgfile="MC_C01.cfg", cfg_fraction=2, nontrivial_keys=("forward-once",), view_label=c01_label)
     return run.finish("every input sequence over the alphabet up to maxlen for every (outer, inner) pair of the catalogue and every binary "
                       "combinator over pairs of children; non-trivial = states in which composite and decomposition answers are compared "
